@@ -54,5 +54,33 @@ INFO = {
         'technique': _T,
         'not_decided': ['Box/BTreeMap/BTreeSet/LinkedList descend/ascend sites: bounded stand-ins', 'bytes of machine stack'],
     },
+    'C12': {
+        'level': 'proof',
+        'level_text': 'MemTrackingInput is proved against exact budget arithmetic (saturating sum, fails iff the sum reaches the limit, combined with any wrapped budget); memory-limited decoding is proved transparent (Ok implies the same bytes/value relation as unlimited decoding) for every decoder under contract.',
+        'level_note': _TB + ' The threshold U through the decoders (need_mem) is not yet threaded through the Decode contract: only the wrapper-level threshold and transparency are decided.',
+        'technique': _T,
+        'not_decided': ['single threshold U per input through composite decoders (need_mem not threaded yet)', 'U >= payload lemmas', 'derive field check (rustc behaviour)'],
+    },
+    'C13': {
+        'level': 'proof',
+        'level_text': 'Every MaxEncodedLen impl found in the expansion (marker-driven) is proved: the returned bound is usize::MAX or bounds |spec_enc(v)| for every value v.',
+        'level_note': _TB + ' size_of facts for NonZero*/bool assumed (closed by Kani constants); RangeInclusive and Compact<()> impls not under contract; derived impls via the C05 family.',
+        'technique': _T,
+        'not_decided': ['ConstEncodedLen marker lemmas', 'encoded_fixed_size for arrays', 'RangeInclusive', 'derived MaxEncodedLen (see C05 family)'],
+    },
+    'C14': {
+        'level': 'proof',
+        'level_text': 'decode_all and decode_all_with_depth_limit are proved to succeed exactly when decoding accepts the whole input; the slice Input is proved to advance only on successful reads; tuple decoding is proved sequential.',
+        'level_note': _TB,
+        'technique': _T,
+        'not_decided': ['strict-prefix rejection and concatenation lemmas over the spec (lemma layer)'],
+    },
+    'C15': {
+        'level': 'proof',
+        'level_text': 'append_or_new_impl is sliced at statement boundaries: the count arithmetic, the reallocation branch and the empty-input branch are proved against contracts in N (no wrap-around) for every old count and every number of appended items; the whole function incl. the in-place branch is checked by Kani, complete in the counts.',
+        'level_note': _TB + ' ExactSizeIterator::len exact and for_each in order are assumed (std protocol); payload of the in-place branch bounded.',
+        'technique': _T,
+        'not_decided': ['element-wise tail (iter.for_each) rests on the assumed iterator protocol'],
+    },
     'C17': {'not_applicable': 'compile-time accept/reject of programs by rustc + proc-macro: no contract on code reachable by Verus/Kani can express or decide it (DESIGN.md C17)'},
 }
